@@ -27,6 +27,25 @@ struct Rec : Observer {
   const Prog &p;
   std::vector<Ev> ev;
   explicit Rec(const Prog &p_) : p(p_) {}
+  // Choices (havoc values, successor order) are a function of the seed and of the position on the
+  // committed path, not of how many pseudo-random numbers were consumed before: a visit that blocks
+  // earlier or later in one branch of a fork must not shift the choices of the path that continues.
+  uint64_t seed = 0;
+  std::map<size_t, int> subs; // draws made at each position of the committed path
+  uint64_t draw() {
+    while (!subs.empty() && subs.rbegin()->first > ev.size()) subs.erase(std::prev(subs.end())); // positions of dropped visits
+    return hash_mix(hash_mix(seed, (uint64_t)ev.size()), (uint64_t)(subs[ev.size()]++));
+  }
+  bool choose(int var, i128 &out) override {
+    uint64_t h = draw();
+    if (p.vars[var].ty == T_BOOL) out = (h >> 7) & 1;
+    else out = (i128)((h >> 9) % 41) - 20;
+    return true;
+  }
+  bool order_successors(int, int, std::vector<int> &succs) override {
+    for (size_t i = succs.size(); i > 1; --i) std::swap(succs[i - 1], succs[(draw() >> 11) % i]);
+    return true;
+  }
   void enter_block(int f, int b, const CState &) override { ev.push_back({'B', b, 0, true}); }
   // a visit that blocks (false assume, unreachable) belongs to an infeasible path, not to the
   // execution that continues at a sibling: its events are dropped
@@ -98,6 +117,7 @@ struct FlowMon : Observer {
   // runs the rest of the execution from block b (entry) in state s, with the given seed
   std::vector<Ev> rest_from(int b, CState s, uint64_t seed) {
     Rec rec(p);
+    rec.seed = seed;
     Rng rr(seed);
     Exec ex(p, rr, rec, 200);
     ex.block_budget = 400;
